@@ -574,6 +574,126 @@ theorem convert_pass_reused_converter_refuted :
 
 example : (convertPassCall false {} ["val_0", "x", "val_2"] 3).1 = (["val_1", "val_3", "val_4"], true) := by decide
 
+/-- **The folder's evaluator lookup is keyed by the version**: a memo of `get_evaluator`'s "no evaluator" answers
+keyed by `(domain, op, version)` — all it depends on — is invisible after any history (instance of
+`memo_complete_key_history_independent`) … -/
+theorem evaluator_lookup_versioned_memo_history_independent
+    (H : List ((String × String × Nat) × Unit)) (k : String × String × Nat) :
+    (memoGet (fun (k : String × String × Nat) (_ : Unit) => evaluatorGap k.1 k.2.1 k.2.2)
+      (memoRun (fun (k : String × String × Nat) (_ : Unit) => evaluatorGap k.1 k.2.1 k.2.2) [] H) k ()).2
+      = evaluatorGap k.1 k.2.1 k.2.2 :=
+  memo_complete_key_history_independent _ (fun _ _ _ => rfl) H k ()
+
+/-- … while remembering them per `(domain, op)` only (seeded change C14-11: a negative cache without the
+version) makes a Softmax at opset 13 look unsupported after one at opset 12. -/
+theorem evaluator_negative_cache_without_version_refuted :
+    ¬ ∀ (H : List ((String × String) × Nat)) (k : String × String) (v : Nat),
+        (memoGet (fun (k : String × String) (v : Nat) => evaluatorGap k.1 k.2 v)
+          (memoRun (fun (k : String × String) (v : Nat) => evaluatorGap k.1 k.2 v) [] H) k v).2
+          = evaluatorGap k.1 k.2 v := by
+  intro h
+  have := h [(("", "Softmax"), 12)] ("", "Softmax") 13
+  revert this; decide
+
+/-! ## Calls as programs of field accesses — the discipline is enough, exceptions included -/
+
+/-- **Reset-on-failure, for every fault point.**  A call of an entry method (`FoldConstantsPass.call`,
+`RewriteRuleSet.apply_to_model`, `RewriteRule.try_rewrite`, `SimplePatternMatcher.match`,
+`ConvertVersionPass.call`, …) is a program of reads and writes of the object's fields (`Prog`, what the
+runtime monitor records).  If on every path every read is of an `__init__`-only field or of a field this
+very call assigned before (`Prog.Disc`; for the generated `EntryRow`s: `earlyReads ⊆ consts`), then after
+ANY history of earlier calls on the same object — each one completed, or abandoned by an exception right
+before ANY of its field accesses, leaving whatever it had assigned — a call returns (or raises) exactly
+what it does on the object as `__init__` left it.  Unlike `entry_object_history_independent` nothing is
+assumed about what the result depends on: that is derived from the access discipline. -/
+theorem entry_call_fault_tolerant_history_independent {I O : Type} (consts : List OField)
+    (body : I → Prog O) (hd : ∀ i, (body i).Disc consts [])
+    (s₀ : OState) (H : List (I × Option Nat)) (p : Prog O) (hp : p.Disc consts []) :
+    (p.run (faultRun body s₀ H)).2 = (p.run s₀).2 :=
+  Prog.run_indep consts p [] hp _ _
+    (fun f hf => (faultRun_consts consts body hd s₀ H f hf).symm) (fun _ h => by simp at h)
+
+/-- … in particular for the target being one of the object's own calls, itself possibly abandoned at any
+point (a failing target fails the same way after any history). -/
+theorem entry_call_fault_tolerant_target {I O : Type} (consts : List OField)
+    (body : I → Prog O) (hd : ∀ i, (body i).Disc consts [])
+    (s₀ : OState) (H : List (I × Option Nat)) (i : I) (e : Int) (n : Nat) :
+    ((body i).run (faultRun body s₀ H)).2 = ((body i).run s₀).2 ∧
+    (((body i).cut e n).run (faultRun body s₀ H)).2 = (((body i).cut e n).run s₀).2 :=
+  ⟨entry_call_fault_tolerant_history_independent consts body hd s₀ H _ (hd i),
+   entry_call_fault_tolerant_history_independent consts body hd s₀ H _
+     (Prog.cut_disc consts e n (body i) [] (hd i))⟩
+
+/-- Non-vacuity, shaped like `FoldConstantsPass.call`: `_reset()` assigns `_state`/`_modified`, the visit
+reads the `__init__`-only `should_fold`, may assign `_modified`, and the result reads `_modified` back.
+The history contains a completed call and one abandoned after the reset and the first assignment. -/
+example :
+    let body : Int → Prog Int := fun i =>
+      .write "_state" 0 (.write "_modified" 0 (.read "should_fold" (fun sf =>
+        if sf = some 1 ∧ i ≠ 0 then .write "_modified" 1 (.write "_state" i (.read "_modified" (fun m => .ret (m.getD 7))))
+        else .read "_modified" (fun m => .ret (m.getD 7)))))
+    (∀ i, (body i).Disc ["should_fold"] []) ∧
+    ((body 0).run (faultRun body (oSet (fun _ => none) "should_fold" 1) [(5, none), (3, some 4)])).2 = .ok 0 ∧
+    (faultRun body (oSet (fun _ => none) "should_fold" 1) [(5, none), (3, some 4)]) "_modified" = some 1 := by
+  refine ⟨?_, by decide, by decide⟩
+  intro i
+  simp only [Prog.Disc]
+  refine ⟨by simp, by simp, by simp, fun v => ?_⟩
+  split <;> simp [Prog.Disc]
+
+/-- The discipline is about *entry*, not exit: an object that reads a field first and tidies it up at the
+end of each call is history independent as long as every call completes — and stops being so with one
+abandoned call (the `pattern_builder` of before 096e584 was of this kind). -/
+theorem cleanup_at_exit_not_fault_tolerant :
+    ∃ (body : Int → Prog Int) (s₀ : OState),
+      (∀ (H : List Int) (i : Int),
+        ((body i).run (faultRun body s₀ (H.map (fun j => (j, none))))).2 = ((body i).run s₀).2) ∧
+      (∃ (H : List (Int × Option Nat)) (i : Int),
+        ((body i).run (faultRun body s₀ H)).2 ≠ ((body i).run s₀).2) := by
+  refine ⟨fun i => .read "_m" (fun v => .write "_m" i (.write "_m" 0 (.ret (v.getD 0)))),
+    oSet (fun _ => none) "_m" 0, ?_, ⟨[(5, some 2)], 1, by decide⟩⟩
+  intro H i
+  suffices h : ∀ s : OState, s "_m" = some 0 →
+      (faultRun (fun i => Prog.read "_m" (fun v => .write "_m" i (.write "_m" 0 (.ret (v.getD 0)))))
+        s (H.map (fun j => (j, none)))) "_m" = some 0 by
+    have h0 := h (oSet (fun _ => none) "_m" 0) (by simp [oSet])
+    simp only [Prog.run, h0, oSet]
+    simp
+  induction H with
+  | nil => intro s hs; exact hs
+  | cons j H ih =>
+    intro s hs
+    simp only [List.map_cons, faultRun, Prog.run]
+    exact ih _ (by simp [oSet])
+
+/-- **An abandoned disciplined call is a disciplined call** — so the theorem above needs no separate
+treatment of exceptions, and the monitor applies one check to completed and to failing calls. -/
+theorem call_abandoned_anywhere_stays_disciplined {O : Type} (consts wr : List OField) (p : Prog O)
+    (e : Int) (n : Nat) (hd : p.Disc consts wr) : (p.cut e n).Disc consts wr :=
+  Prog.cut_disc consts e n p wr hd
+
+/-- **The monitor's check is sound for the discipline**: every trace of a disciplined call (from any
+object state) passes `traceOk` — the check the driver command `etrace` applies to the event sequences of
+the real objects with the generated row's `consts`.  Read contrapositively: one rejected trace of a real
+call shows the method is not disciplined. -/
+theorem monitor_trace_check_sound {O : Type} (consts : List OField) (p : Prog O) (hd : p.Disc consts [])
+    (s : OState) : traceOk consts [] (p.trace s) = true :=
+  Prog.trace_ok consts p [] hd s
+
+/-- **Bridge to the row-level theorem**: the big-step behaviour induced by disciplined programs satisfies
+`ObjRespects` for a row with these `consts` — the hypothesis `entry_object_history_independent` assumed
+is now a consequence — and its recorded assignments are the final state of the small-step run. -/
+theorem disciplined_calls_respect_row {I O : Type} (e : EntryRow) (body : I → Prog O)
+    (hd : ∀ i, (body i).Disc e.consts []) :
+    ObjRespects e (progBeh body) ∧
+    ∀ s i, oApply ((progBeh body).call s i).2 s = ((body i).run s).1 := by
+  refine ⟨⟨?_, ?_⟩, fun s i => Prog.oApply_writes (body i) s⟩
+  · intro s s' i hag
+    exact Prog.run_indep e.consts (body i) [] (hd i) s s'
+      (fun f hf => hag f (List.mem_append_right _ hf)) (fun _ h => by simp at h)
+  · intro s i q hq
+    exact Prog.writes_not_const e.consts (body i) [] (hd i) s q hq
+
 /-! ## The whole process -/
 
 /-- **History independence, all operation kinds.**  For every set of installed rule objects obeying
